@@ -4,7 +4,11 @@ against the real functions, row by row.  Floats travel as 64-bit patterns; value
 with |a-b| <= 1e-10*max(|a|,|b|,scale) (operation order differs slightly; 1e-7 for the triangle
 sheets, whose closed form cancels near edge extensions), masks exactly.  Also: BHJM_triangle,
 BHJM_magnet_tetrahedron (chirality fix, inside test, four sheets), BHJM_circle with the Bulirsch cel
-iteration (special cases on the axis / on the wire / zero diameter).""" 
+iteration (special cases on the axis / on the wire / zero diameter).  Kind `cel0`: the scalar complete
+elliptic integral `cel0(kc, p, c, s)` of special_cel.py (both prologue cases p > 0 / p <= 0, the
+`kc == 0` RuntimeError as `none`) against the port `Kern.cel0`, relative 1e-12.  Kind `celiter`: `cel_iter`
+(scalar pre-loop for fewer than 15 entries, then `cel_iterv` on the whole batch) on batches of 1..20 rows
+against `Kern.celIterDispatch`, relative 1e-12.""" 
 import struct
 
 import numpy as np
@@ -48,12 +52,13 @@ def run_stream(ctx, n):
     from magpylib._src.fields.field_BH_circle import BHJM_circle
     from magpylib._src.fields.field_BH_tetrahedron import BHJM_magnet_tetrahedron
     from magpylib._src.fields.field_BH_triangle import BHJM_triangle
+    from magpylib._src.fields.special_cel import cel0, cel_iter
 
     rng = ctx.rng
     lines, expect, meta = [], [], []
     for i in range(n):
         nps = np.random.default_rng(rng.randrange(2**31))
-        kind = ["dipole", "sphere", "segment", "cuboidmask", "cuboid", "triangle", "tetra", "circle", "tetrainside"][i % 9]
+        kind = ["dipole", "sphere", "segment", "cuboidmask", "cuboid", "triangle", "tetra", "circle", "tetrainside", "cel0", "celiter"][i % 11]
         sc = 10.0 ** nps.uniform(-3, 3)
         f = rng.choice("BHJM")
         if kind == "dipole":
@@ -137,6 +142,49 @@ def run_stream(ctx, n):
             r = BHJM_circle(f, x[None], np.array([d]), np.array([cur]))[0]
             lines.append(f"kern circle {f} {bits(d)} {bits(cur)} {enc(x)}")
             scale = abs(cur) / (2 * r0) * (mu_0 if f == "B" else 1) * 1e-3 + 1e-300
+        elif kind == "cel0":
+            # kc in +-[1e-6, 1e3] (log-uniform), p of both signs, c, s in [-3, 3]; now and then p == 0 exactly
+            # (falls into the `else` prologue), p == 1, |kc| == 1 (loop exits at once) and kc == 0 (raises)
+            kc = np.float64(rng.choice([-1, 1]) * 10.0 ** nps.uniform(-6, 3))
+            pa = np.float64(rng.choice([-1, 1, 1]) * 10.0 ** nps.uniform(-4, 3))
+            c, s = (np.float64(t) for t in nps.uniform(-3, 3, 2))
+            k = rng.random()
+            if k < 0.05:
+                pa = np.float64(0.0)
+            elif k < 0.1:
+                pa = np.float64(1.0)
+            elif k < 0.15:
+                kc = np.float64(rng.choice([-1.0, 1.0]))
+            elif k < 0.2:
+                kc = np.float64(rng.choice([0.0, -0.0]))
+            lines.append(f"kern cel0 {bits(kc)} {bits(pa)} {bits(c)} {bits(s)}")
+            meta.append({"kind": kind, "kc": float(kc), "p": float(pa), "c": float(c), "s": float(s)})
+            try:
+                with np.errstate(all="ignore"):
+                    r = np.array([float(cel0(kc, pa, c, s))])
+            except RuntimeError:
+                expect.append(("mask", "none", None))
+                continue
+            expect.append(("vec", r, 1e-300))
+            continue
+        elif kind == "celiter":
+            # batches of 1..20 rows (the scalar pre-loop runs below 15): rows as the Circle kernel builds them
+            # (qc = kk = q, p = em = 1 + q, g = 1) with q over nine decades, or arbitrary positive loop variables
+            nrow = rng.choice([1, 2, 3, 7, 14, 15, 16, 20])
+            circ = rng.random() < 0.5
+            q = 10.0 ** nps.uniform(-6, 3, nrow)
+            cc, ss = nps.uniform(-3, 3, nrow), nps.uniform(-3, 3, nrow)
+            if circ:
+                rows = np.stack([q, 1 + q, np.ones(nrow), cc, ss, 1 + q, q], axis=1)
+            else:
+                rows = np.stack([q, 10.0 ** nps.uniform(-2, 2, nrow), 10.0 ** nps.uniform(-3, 3, nrow), cc, ss,
+                                 10.0 ** nps.uniform(-3, 3, nrow), 10.0 ** nps.uniform(-6, 6, nrow)], axis=1)
+            with np.errstate(all="ignore"):
+                r = np.asarray(cel_iter(*(rows[:, j].copy() for j in range(7))), dtype=float)
+            lines.append(f"kern celiter {nrow} {enc(rows)}")
+            expect.append(("vec", r, 1e-300))
+            meta.append({"kind": kind, "rows": nrow, "circle_like": circ, "line": lines[-1][:80]})
+            continue
         elif kind == "cuboid":
             dim, pol = nps.uniform(0.5, 2, 3) * sc, nps.uniform(-1, 1, 3) * rng.choice([1, 1, 1, 0])
             if rng.random() < 0.2:
@@ -179,7 +227,7 @@ def run_stream(ctx, n):
                 ok = False
             else:
                 both_nan = np.isnan(got) & np.isnan(exp)
-                tol = 1e-7 if m["kind"] in ("triangle", "tetra") else 1e-10  # triangle sheets: cancellation near edge extensions amplifies the different operation order
+                tol = 1e-7 if m["kind"] in ("triangle", "tetra") else 1e-12 if m["kind"] in ("cel0", "celiter") else 1e-10  # triangle sheets: cancellation near edge extensions amplifies the different operation order
                 ok = bool(np.all(both_nan | (np.abs(got - exp) <= tol * np.maximum(np.maximum(np.abs(got), np.abs(exp)), scale))))
                 if np.any(exp != 0):
                     stats["nonzero_rows"] += 1
